@@ -20,13 +20,14 @@ args = cm.parse_args(sys.argv[1:])
 
 
 class StubConf:
-    """stands for DistributedConfiguration of an MPI run with `size` processes, seen from `rank`"""
+    """stands for DistributedConfiguration of an MPI run with `size` processes, seen from `rank`,
+    inside `level` nested parallel regions"""
 
-    def __init__(self, size, rank):
+    def __init__(self, size, rank, level=1):
         self.size = size
         self.rank = rank
-        self.parallel_level = 1
-        self.parallel_region = 1
+        self.parallel_level = level
+        self.parallel_region = max(level, 1)
         self.have_mpi = True
         self.inparallel = True
         self.silent = True
@@ -45,29 +46,29 @@ def impl_ranges(size, start, stop):
     return allr, out
 
 
-def with_conf(size, rank, fn):
+def with_conf(size, rank, fn, level=1):
     from quantarhei.core.managers import Manager
     m = Manager()
     old = m.parallel_conf
-    m.parallel_conf = StubConf(size, rank)
+    m.parallel_conf = StubConf(size, rank, level)
     try:
         return fn()
     finally:
         m.parallel_conf = old
 
 
-def impl_api(kind, size, a, b):
+def impl_api(kind, size, a, b, level=1):
     """indices handed to each rank by the public helpers; a,b = start,stop or (len, return_index)"""
     import numpy
     import quantarhei as qr
     res = []
     for rank in range(size):
         if kind == "range":
-            r = with_conf(size, rank, lambda: qr.block_distributed_range(a, b))
+            r = with_conf(size, rank, lambda: qr.block_distributed_range(a, b), level)
             res.append([int(i) for i in r])
         elif kind == "list":
             dl = [1000 + i for i in range(a)]
-            r = with_conf(size, rank, lambda: qr.block_distributed_list(dl, return_index=bool(b)))
+            r = with_conf(size, rank, lambda: qr.block_distributed_list(dl, return_index=bool(b)), level)
             if b:
                 for (i, v) in r:
                     if v != 1000 + i:
@@ -77,7 +78,7 @@ def impl_api(kind, size, a, b):
                 res.append([int(v) - 1000 for v in r])
         elif kind == "array":
             arr = numpy.arange(a) + 1000
-            r = with_conf(size, rank, lambda: qr.block_distributed_array(arr, return_index=bool(b)))
+            r = with_conf(size, rank, lambda: qr.block_distributed_array(arr, return_index=bool(b)), level)
             if b:
                 for (i, v) in r:
                     if v != 1000 + i:
@@ -86,6 +87,21 @@ def impl_api(kind, size, a, b):
             else:
                 res.append([int(v) - 1000 for v in r])
     return res
+
+
+def check_reduce_identity(size, level):
+    """outside level 1 the real reduce/allreduce must not touch the data"""
+    import numpy
+    from quantarhei.core.parallel import DistributedConfiguration
+    dc = DistributedConfiguration()
+    dc.size, dc.rank, dc.parallel_level, dc.parallel_region = size, 0, level, max(level, 1)
+    A = numpy.arange(6.0).reshape(2, 3)
+    A0 = A.copy()
+    B = dc.reduce(A)
+    dc.allreduce(A)
+    if not (numpy.array_equal(A, A0) and numpy.array_equal(B, A0)):
+        return "reduce/allreduce changed the data at parallel_level=%d" % level
+    return None
 
 
 def monitor_partition(blocks, start, stop):
@@ -138,20 +154,33 @@ def run(chk, cases):
                 meta[kind].append(c)
                 nontriv = (b - a) >= 1 and size >= 2
             else:
-                blocks = impl_api(kind, size, a, b)
+                level = c.get("level", 1)
+                chk.count("level:%d" % level)
+                blocks = impl_api(kind, size, a, b, level)
                 if kind == "range":
                     start, stop = a, b
                 else:
                     start, stop = 0, a
-                msg = monitor_partition(blocks, start, stop)
+                if level == 1:
+                    msg = monitor_partition(blocks, start, stop)
+                else:
+                    # nothing is shared outside level 1 (reduce/allreduce are the identity there):
+                    # every process has to loop over the whole range
+                    msg = None
+                    for rk, bl in enumerate(blocks):
+                        if bl != list(range(start, stop)):
+                            msg = ("parallel_level=%d: rank %d of %d got %s instead of the whole range(%d,%d), but "
+                                   "reductions are the identity at this level" % (level, rk, size, bl, start, stop))
+                            break
+                    msg = msg or check_reduce_identity(size, level)
                 if msg:
                     chk.violation("%s%s:not_partition" % (kind, ":return_index" if (kind != "range" and b) else ""),
                                   "block_distributed_%s(size=%d, %s): %s" % (kind, size, (a, b), msg), "monitor", c)
-                coq_items[kind].append("(%s,%s,%s,%s)" % (cm.zlit(size), cm.zlit(start), cm.zlit(stop),
+                coq_items[kind].append("(%s,%s,%s,%s,%s)" % (cm.zlit(level), cm.zlit(size), cm.zlit(start), cm.zlit(stop),
                                        cm.clist([cm.clist([cm.zlit(i) for i in bl]) for bl in blocks])))
                 meta[kind].append(c)
                 nontriv = (stop - start) >= 1 and size >= 2
-            chk.case((kind, size, a, b), nontriv, sample={"case": c, "impl": blocks if len(blocks) < 9 else blocks[:8]})
+            chk.case((kind, size, a, b, c.get("level", 1)), nontriv, sample={"case": c, "impl": blocks if len(blocks) < 9 else blocks[:8]})
         except Exception as e:  # the implementation refused or crashed: not the behaviour the property allows
             chk.violation("%s:exception" % kind, "%s raised %r on %s" % (kind, e, c), "monitor", c)
             chk.case((kind, size, a, b), False)
@@ -169,10 +198,10 @@ def run(chk, cases):
                         "Eval vm_compute in (bad (case_agrees FromStart) cs).\n"
                         "Eval vm_compute in (bad (case_agrees FromZero) cs).\n" % cm.clist(part))
             else:
-                body = ("Definition cs : list (Z*Z*Z*list (list Z)) := %s.\n"
-                        "Definition agrees (v:variant) (c : Z*Z*Z*list (list Z)) : bool :=\n"
-                        "  let '(size,start,stop,impl) := c in\n"
-                        "  eqb_list (eqb_list Z.eqb) (map (fun r => block v size start stop (Z.of_nat r)) (seq 0 (Z.to_nat size))) impl.\n"
+                body = ("Definition cs : list (Z*Z*Z*Z*list (list Z)) := %s.\n"
+                        "Definition agrees (v:variant) (c : Z*Z*Z*Z*list (list Z)) : bool :=\n"
+                        "  let '(level,size,start,stop,impl) := c in\n"
+                        "  eqb_list (eqb_list Z.eqb) (map (fun r => api_block level v size start stop (Z.of_nat r)) (seq 0 (Z.to_nat size))) impl.\n"
                         "Eval vm_compute in (bad (agrees FromStart) cs).\n"
                         "Eval vm_compute in (bad (agrees FromZero) cs).\n" % cm.clist(part))
             shards.append(cm.HEADER + "From QV Require Import Model.C20.\n" + body)
@@ -209,11 +238,14 @@ def reduce_end_to_end(chk, tier):
     from quantarhei.implementations.python import redfieldrates as rr
     r = cm.rng("reduce")
 
+    from quantarhei.core.parallel import DistributedConfiguration
+
     class Conf(StubConf):
-        def __init__(self, size, rank):
+        def __init__(self, size, rank, outer=0):
             StubConf.__init__(self, size, rank)
-            self.parallel_level = 0
-            self.parallel_region = 0
+            self.parallel_level = outer if size > 1 else 0
+            self.parallel_region = outer
+            self.reduced = False
 
         def start_parallel_region(self):
             if self.size > 1:
@@ -226,9 +258,15 @@ def reduce_end_to_end(chk, tier):
             self.parallel_region -= 1
 
         def allreduce(self, A, operation="sum"):
+            if self.parallel_level != 1:
+                return DistributedConfiguration.allreduce(self, A, operation)
+            self.reduced = True      # the harness sums the partial results over ranks
             return None
 
         def reduce(self, A, operation="sum"):
+            if self.parallel_level != 1:
+                return DistributedConfiguration.reduce(self, A, operation)
+            self.reduced = True
             return A
     for trial in range(4 if tier == "quick" else 40):
         Na = r.randint(2, 4)
@@ -255,7 +293,17 @@ def reduce_end_to_end(chk, tier):
             for rank in range(size):
                 m.parallel_conf = Conf(size, rank)
                 part = kernel()
-                total += part
+                total += part if (m.parallel_conf.reduced or rank == 0) else 0.0
+            # the same kernel called from inside an outer parallel region (nested): nothing may be shared
+            for rank in range(size):
+                m.parallel_conf = Conf(size, rank, outer=1)
+                part = kernel()
+                if not numpy.array_equal(part, serial):
+                    chk.violation("reduce:nested_not_serial", "ssRedfieldRateMatrix inside an outer parallel region "
+                                  "(size=%d rank=%d Nk=%d) differs from the serial result: max dev %g"
+                                  % (size, rank, Nk, float(numpy.max(numpy.abs(part - serial)))), "monitor",
+                                  {"Na": Na, "Nk": Nk, "size": size, "rank": rank, "KI": KI.tolist(), "cc": cc.tolist()})
+                    break
         except Exception as e:
             chk.violation("reduce:exception", "ssRedfieldRateMatrix under simulated ranks raised %r" % (e,), "monitor",
                           {"Na": Na, "Nk": Nk, "size": size})
@@ -295,6 +343,15 @@ def main():
                 for ri in (0, 1):
                     cases.append({"kind": "list", "size": size, "a": ln, "b": ri})
                     cases.append({"kind": "array", "size": size, "a": ln, "b": ri})
+        for (size, start, stop) in sub[::7]:
+            for level in (0, 2, 3):
+                cases.append({"kind": "range", "size": size, "a": start, "b": stop, "level": level})
+        for size in (1, 2, 3, 5):
+            for ln in (0, 1, 2, 4, 7):
+                for ri in (0, 1):
+                    for level in (0, 2):
+                        cases.append({"kind": "list", "size": size, "a": ln, "b": ri, "level": level})
+                        cases.append({"kind": "array", "size": size, "a": ln, "b": ri, "level": level})
         chk.extra["exhaustive"] = True
     run(chk, cases)
     if not args.replay:
